@@ -1,13 +1,20 @@
 """C05 - several types in one file: order-independent, idempotent, lossless merge (sequential part;
 the schedules part is in threads.py and is run from here as well)."""
 import exportchecks
+import repotests
 import threads
 
 PROP = "C05"
 
 
+def stages(tier, v, stats, seed):
+    threads.run(tier, v, stats, seed)
+    # the repository's own integration tests, traced through the hook points and validated against the specification
+    repotests.run(tier, v, stats)
+
+
 def run(tier):
-    return exportchecks.run_property(PROP, ["samefile", "samefile_all", "nasty", "imports"], tier, extra_stage=threads.run,
+    return exportchecks.run_property(PROP, ["samefile", "samefile_all", "samefile_abs", "nasty", "imports"], tier, extra_stage=stages,
                                      extra_assumptions=["thread runs: a 60 ms pause inside the critical section is enough for a second thread to get in if the lock did not keep it out (probe); event order is a sequence number taken inside the hook callback"])
 
 
